@@ -115,6 +115,11 @@ func vc02Model(k int, n int, nreg int, ns bool) []vvttCue {
 		for l := 0; l < nl; l++ {
 			cue.lines = append(cue.lines, corpus[(k+3*c+5*l)%len(corpus)])
 		}
+		if nl == 2 && (k/2+c)%4 == 3 {
+			// two consecutive lines spoken by the same voice: each line carries its voice
+			cue.lines[0] = corpus[1]
+			cue.lines[1] = vvttLine{"<v Bob>again", "Bob", []vvttRun{{text: "again"}}}
+		}
 		cues = append(cues, cue)
 	}
 	return cues
